@@ -935,6 +935,31 @@ def main():
                        "original": strip_route(routes[i]), "implementation_output": obs[i], "oracle": rs[i],
                        "claim": "prop_C10: the implementation accepts the route exactly when it is well linked"})
     if not propfail and (disagree or not table_ok):
+        # the model no longer describes the code (or the rule table moved): look harder for a failing input
+        wide = []
+        pool = [routes[i] for i in disagree[:20]] + ([copy.deepcopy(b) for b in base] if base else [])
+        for _ in range(600 if pool else 0):
+            x = rng.choice(pool)
+            for _ in range(rng.choice([1, 2, 3])):
+                opts = single_perturbations(x)
+                if not opts:
+                    break
+                x = rng.choice(opts)[1]
+            wide.append(x)
+        if wide:
+            rename_unique(wide)
+            for x in wide:
+                x["name"] = "W" + x["name"]
+            _, wobs, wrs, _ = evaluate(wide, "widen", os.path.join(WORK, PROP, "widen"))
+            wfail = [i for i, x in enumerate(wrs) if x["oracle"] in (1, 2)]
+            if wfail:
+                i = wfail[0]
+                small = shrink_route(wide[i], lambda c: fails(c, "oracle"))
+                res.violation({"kind": "property-fails-on-implementation", "input": strip_route(small),
+                               "original": strip_route(wide[i]), "implementation_output": wobs[i], "oracle": wrs[i],
+                               "claim": "prop_C10: the implementation accepts the route exactly when it is well linked",
+                               "note": "found while widening the search after a model/implementation disagreement"})
+    if not propfail and not res.violations and (disagree or not table_ok):
         if disagree:
             i = disagree[0]
             small = shrink_route(routes[i], lambda c: fails(c, "agree"))
@@ -942,7 +967,8 @@ def main():
                            "input": strip_route(small), "original": strip_route(routes[i]),
                            "implementation_output": obs[i], "model_prediction_class": pred[i],
                            "note": "model and implementation disagree on %d of %d routes; the property oracle found no "
-                                   "failing input" % (len(disagree), len(routes))}, no_input=True)
+                                   "failing input in them nor in %d further perturbations of the disagreeing and the "
+                                   "well-formed routes" % (len(disagree), len(routes), len(wide))}, no_input=True)
         else:
             res.violation({"kind": "reflection-obligation", "obligation": "Gen_rules.rule_table_ok", "detail": table},
                           no_input=True)
